@@ -124,8 +124,86 @@ let xreason_s = function
   | XCore r -> reason_s r
   | XEnumOrder -> "enumorder"
 
+(* ---------------------------------------------------------------- c11tm: the tagging-mode model (Fix/TagMode.v)
+   c11tm <default E|I|A> <ndefs> { name tag body } <nholders> { name kind nroot ncomps { ident tag body } }
+     body := C | A | U<n> | R<name>      kind := S | T | C | Q | P  (Q, P: element of SEQUENCE OF / SET OF)
+   Result: verdict=ACCEPT | REJECT:<T<n> | c<i>@T<h> | elem@T<h> | exttag@T<h>, sorted>
+           defs=T<n>:<mode>:<tags>:<all tags>,...   sites=T<h>.<pos>:<mode>:<member tag>,...
+     mode = i | e | - ; tags = c1.u2 | - ; member tag = <tag> | any | none; "X" = this use/definition is the error *)
+let parse_body (s : string) : body =
+  match s.[0] with
+  | 'C' -> BChoice
+  | 'A' -> BOpen
+  | 'U' -> BOther (cz_of_string (String.sub s 1 (String.length s - 1)))
+  | 'R' -> BRef (nat_s (String.sub s 1 (String.length s - 1)))
+  | _ -> raise (Bad ("body " ^ s))
+
+let cls_s = function CUniversal -> "u" | CApplication -> "a" | CContext -> "c" | CPrivate -> "p"
+let etag_s (c, n) = cls_s c ^ string_of_cz n
+let etags_s l = if l = [] then "-" else String.concat "." (List.map etag_s l)
+let mode_s = function None -> "-" | Some MImplicit -> "i" | Some MExplicit -> "e" | Some MDefault -> "d"
+
+let tm_parse (args : string list) : tmmod * (int * bool) list =
+  match args with
+  | tg :: n :: r ->
+      let tagging = (match tg with "E" -> TgExplicit | "I" -> TgImplicit | "A" -> TgAutomatic | _ -> raise (Bad "tagging")) in
+      let rec defs k r acc =
+        if k = 0 then (List.rev acc, r)
+        else match r with
+          | name :: tag :: b :: r -> defs (k - 1) r ({ td_name = nat_s name; td_tag = parse_tag tag; td_body = parse_body b } :: acc)
+          | _ -> raise (Bad "tm def") in
+      let (ds, r) = defs (int_of_string n) r [] in
+      let rec sites k r acc =
+        if k = 0 then (List.rev acc, r)
+        else match r with
+          | id :: tag :: b :: r -> sites (k - 1) r ({ s_ident = nat_s id; s_tag = parse_tag tag; s_body = parse_body b } :: acc)
+          | _ -> raise (Bad "tm site") in
+      let rec holders k r acc kinds =
+        if k = 0 then (if r = [] then (List.rev acc, List.rev kinds) else raise (Bad "tm trailing"))
+        else match r with
+          | name :: kind :: nroot :: nc :: r ->
+              let (ss, r) = sites (int_of_string nc) r [] in
+              let isof = (kind = "Q" || kind = "P") in
+              let hk = if isof then HOf else HStruct (nat_s nroot) in
+              holders (k - 1) r ({ h_name = nat_s name; h_kind = hk; h_sites = ss } :: acc) ((int_of_string name, isof) :: kinds)
+          | _ -> raise (Bad "tm holder") in
+      (match r with
+       | nh :: r ->
+           let (hs, kinds) = holders (int_of_string nh) r [] [] in
+           ({ tmm_tagging = tagging; tmm_defs = ds; tmm_holders = hs }, kinds)
+       | _ -> raise (Bad "tm holders"))
+  | _ -> raise (Bad "tm module")
+
+let tm_dispatch args =
+  let (m, kinds) = tm_parse args in
+  let err_s = function
+    | EDef n -> Printf.sprintf "T%d" (int_of_nat n)
+    | ESite (h, i) ->
+        let hn = int_of_nat h in
+        if (try List.assoc hn kinds with Not_found -> false) then Printf.sprintf "elem@T%d" hn
+        else Printf.sprintf "c%d@T%d" (int_of_nat i) hn
+    | EExtTag h -> Printf.sprintf "exttag@T%d" (int_of_nat h) in
+  let errs = List.sort compare (List.map err_s (tm_errors m)) in
+  let verdict = if errs = [] then "ACCEPT" else "REJECT:" ^ String.concat "," errs in
+  let defs = List.map (fun d ->
+      let (md, (e, a)) = def_report m d in
+      Printf.sprintf "T%d:%s:%s:%s" (int_of_nat d.td_name) (mode_s md) (etags_s e) (etags_s a)) m.tmm_defs in
+  let sites = List.concat (List.map (fun h ->
+      List.mapi (fun pos r ->
+          match r with
+          | None -> Printf.sprintf "T%d.%d:X" (int_of_nat h.h_name) pos
+          | Some (md, ot) ->
+              Printf.sprintf "T%d.%d:%s:%s" (int_of_nat h.h_name) pos (mode_s md)
+                (match ot with OTag t -> etag_s t | OAny -> "any" | ONone -> "none")) (holder_report m h)) m.tmm_holders) in
+  let one = List.concat (List.map (fun h -> List.map (fun s ->
+      if must_explicit_c m.tmm_defs (tm_fuel m.tmm_defs) s.s_body <> must_explicit_1hop m.tmm_defs (tm_fuel m.tmm_defs) s.s_body then 1 else 0) h.h_sites) m.tmm_holders) in
+  Printf.sprintf "verdict=%s defs=%s sites=%s onehopdiff=%d" verdict
+    (if defs = [] then "-" else String.concat "," defs) (if sites = [] then "-" else String.concat "," sites)
+    (List.fold_left (+) 0 one)
+
 let dispatch cmd args =
   match cmd with
+  | "c11tm" -> Some (tm_dispatch args)
   | "c11" ->
       let xm = parse_module args in
       let rs l = String.concat "," (uniq_sorted (List.map reason_s l)) in
